@@ -16,7 +16,7 @@ def fnvInit : UInt64 := 14695981039346656037
 def digestRats (xs : List Rat) : String :=
   hex (xs.foldl (fun h q => fnv1a (fnv1a h (ratStr q)) ";") fnvInit)
 
-def parseInts (s : String) : Array Int :=
+private def parseInts (s : String) : Array Int :=
   (s.splitOn ",").foldl (fun acc t => match t.toInt? with | some v => acc.push v | none => acc) #[]
 
 def ratGt (x y : Rat) : Bool := decide (y.abs < x.abs)
